@@ -55,6 +55,21 @@ type c08Scenario struct {
 	perConn  []int
 	holdConn int
 	holdSeq  uint32
+	mux      bool // handlers registered by short name on a shared ServeMux, several commands
+}
+
+// the commands of the generated dictionary used by C08: (code, application)
+var c08Cmds = [][2]uint32{{8388000, 0}, {257, 0}, {8388002, 8388001}}
+
+// c08Msg: message number seq of a connection; the command rotates with conn+seq.
+func c08Msg(conn int, seq uint32, body int, rotate bool) []byte {
+	b := seqMsg(seq, body)
+	if rotate {
+		cmd := c08Cmds[(conn+int(seq))%len(c08Cmds)]
+		b[5], b[6], b[7] = byte(cmd[0]>>16), byte(cmd[0]>>8), byte(cmd[0])
+		b[8], b[9], b[10], b[11] = byte(cmd[1]>>24), byte(cmd[1]>>16), byte(cmd[1]>>8), byte(cmd[1])
+	}
+	return b
 }
 
 func runC08(c *ev.Case, ctx *lib.Ctx, sc c08Scenario) {
@@ -63,7 +78,7 @@ func runC08(c *ev.Case, ctx *lib.Ctx, sc c08Scenario) {
 	byAddr := map[string]int{}
 	release := make(chan struct{})
 	held := make(chan struct{}, 1)
-	h := diam.HandlerFunc(func(dc diam.Conn, m *diam.Message) {
+	hf := diam.HandlerFunc(func(dc diam.Conn, m *diam.Message) {
 		i := byAddr[dc.RemoteAddr().String()]
 		seq := m.Header.HopByHopID
 		mons[i].enter(seq)
@@ -78,6 +93,14 @@ func runC08(c *ev.Case, ctx *lib.Ctx, sc c08Scenario) {
 		}
 		mons[i].leave()
 	})
+	var h diam.Handler = hf
+	if sc.mux {
+		mux := diam.NewServeMux()
+		for _, n := range []string{"GTR", "CER", "GAR"} {
+			mux.Handle(n, hf)
+		}
+		h = mux
+	}
 	for i := range conns {
 		conns[i] = memnet.NewConn()
 		conns[i].Remote = memnet.Addr{Net: "tcp", Str: fmt.Sprintf("10.0.0.%d:1000", i+1)}
@@ -104,7 +127,7 @@ func runC08(c *ev.Case, ctx *lib.Ctx, sc c08Scenario) {
 	streams := make([][]byte, sc.K)
 	for i := range conns {
 		for s := 1; s <= sc.perConn[i]; s++ {
-			streams[i] = append(streams[i], seqMsg(uint32(s), []int{0, 12, 100, 1024}[(i+s)%4])...)
+			streams[i] = append(streams[i], c08Msg(i, uint32(s), []int{0, 12, 100, 1024}[(i+s)%4], sc.mux)...)
 		}
 	}
 	switch sc.pattern {
@@ -215,13 +238,18 @@ func TestC08(t *testing.T) {
 	}
 	rec.Suite("scenarios", n, func(c *ev.Case) {
 		r := c.R
-		sc := c08Scenario{K: []int{1, 3, 5}[r.IntN(3)], dialled: r.IntN(2) == 0, pattern: r.IntN(3), handler: r.IntN(3)}
+		sc := c08Scenario{K: []int{1, 3, 5}[r.IntN(3)], dialled: r.IntN(2) == 0, pattern: r.IntN(3), handler: r.IntN(3), mux: r.IntN(2) == 0}
+		long := r.IntN(4) == 0 // bursts well above any plausible read-ahead
 		for i := 0; i < sc.K; i++ {
-			sc.perConn = append(sc.perConn, 1+r.IntN(12))
+			n := 1 + r.IntN(12)
+			if long {
+				n = 33 + r.IntN(90)
+			}
+			sc.perConn = append(sc.perConn, n)
 		}
 		sc.holdConn = r.IntN(sc.K)
-		sc.holdSeq = uint32(1 + r.IntN(sc.perConn[sc.holdConn]))
-		c.Class("K=%d/dialled=%v/pattern=%d/handler=%d", sc.K, sc.dialled, sc.pattern, sc.handler)
+		sc.holdSeq = uint32(1 + r.IntN(min(sc.perConn[sc.holdConn], 3)))
+		c.Class("K=%d/dialled=%v/pattern=%d/handler=%d/mux=%v/long=%v", sc.K, sc.dialled, sc.pattern, sc.handler, sc.mux, long)
 		leak := runBubbleWD(t, rec, c, 60*time.Second, func() { runC08(c, ctx, sc) })
 		if leak != "" && !c.Failed() {
 			c.Fail(ev.Sig{"op": "bubble-leak"}, nil, nil, "goroutines left blocked after the scenario ended: %s (%+v)", leak, sc)
